@@ -25,7 +25,7 @@ def engine_hash():
     h = hashlib.sha256()
     d = os.path.dirname(os.path.abspath(__file__))
     for fn in sorted(os.listdir(d)):
-        if fn.endswith('.py') and fn not in ('core.py', 'cli.py', 'graph.py') and not fn.startswith('rule'):
+        if fn.endswith('.py') and fn not in ('core.py', 'cli.py', 'graph.py', 'dfa.py') and not fn.startswith('rule'):
             h.update(open(os.path.join(d, fn), 'rb').read())
     return h.hexdigest()[:16]
 
